@@ -132,6 +132,16 @@ func c12Scenarios() []vh.SScenario {
 			}
 		}
 	}
+	if !vres.Thorough() {
+		// the remaining strategies: every pair that contains a request
+		for _, st := range []string{"least_connections", "ip_hash_consistent"} {
+			for a := 0; a <= 2; a++ {
+				for b := a; b < n; b++ {
+					out = append(out, c12Scenario(c12Params{st, []int{a, b}}, bound))
+				}
+			}
+		}
+	}
 	if vres.Thorough() {
 		for _, st := range []string{"least_connections", "ip_hash_consistent"} {
 			for a := 1; a < n; a++ {
